@@ -307,7 +307,7 @@ func genTwoRunReset(seed int64, n int, tier string) []Script {
 		pre, _ := genInput(r, 1+r.Intn(250))
 		data := relatedInput(r, pre, r.Intn(200))
 		tags := []string{"go", kind, mode}
-		margin := (kind == "DHP" || kind == "BDHP") && mode == "reset" && r.Intn(2) == 0
+		margin := kind != "GSAP" && kind != "OSAP" && mode == "reset" && r.Intn(2) == 0
 		if margin {
 			// What lies behind the end of the data (the 7-byte margin the
 			// 8-byte loads read) must not matter: the history fills the
@@ -318,9 +318,16 @@ func genTwoRunReset(seed int64, n int, tier string) []Script {
 			B = pickInt(r, 64, 100, 150, 200)
 			cfg["BufferSize"], cfg["ShrinkSize"], cfg["WindowSize"] = B, B/2, pickInt(r, B, 2*B)
 			cfg["BlockSize"] = pickInt(r, 32, 64, B)
-			il1 := pickInt(r, 2, 3, 3)
-			cfg["InputLen1"], cfg["HashBits1"] = il1, pickInt(r, 6, 8, 10)
-			cfg["InputLen2"], cfg["HashBits2"] = il1+1+r.Intn(4), pickInt(r, 6, 8, 10)
+			switch kind {
+			case "DHP", "BDHP":
+				il1 := pickInt(r, 2, 3, 3)
+				cfg["InputLen1"], cfg["HashBits1"] = il1, pickInt(r, 6, 8, 10)
+				cfg["InputLen2"], cfg["HashBits2"] = il1+1+r.Intn(4), pickInt(r, 6, 8, 10)
+			default:
+				// few hash bits: an entry made from bytes behind the data
+				// lands on a slot the following data needs
+				cfg["InputLen"], cfg["HashBits"] = pickInt(r, 3, 3, 4, 5, 8), pickInt(r, 2, 3, 4, 6, 10)
+			}
 			pre = make([]byte, B+r.Intn(B))
 			for j := range pre {
 				pre[j] = byte(0x80 + r.Intn(0x7f))
